@@ -133,6 +133,65 @@ func voracleC01(c *Classifier, in vinput, res Results) (what string, checked int
 	return "", checked
 }
 
+// vclassifyC01: signature C01/approximate-superset-dominates-exact — every planted document D that
+// is not reported as an exact match lies inside a reported APPROXIMATE match (confidence below 1.0)
+// of another, longer corpus document whose token span contains the copy's span and reaches beyond
+// it, and whose weight tokens*confidence is at least |D|: the overlap filter of match() keeps the
+// heavier of two candidates when one's lines contain the other's. Typical: Apache-2.0/a.txt (the
+// license without its appendix) followed by the Apache-2.0 header is, approximately,
+// Apache-2.0/pristine.txt (the license with the appendix that quotes the header). See DESIGN §11.
+func vclassifyC01(c *Classifier, in vinput, res Results) string {
+	for _, p := range in.plants {
+		d := c.getIndexedDocument(p.doc.cat, p.doc.name, p.doc.variant)
+		if d == nil || len(d.Tokens) < vminRun(c.threshold) {
+			continue
+		}
+		st, et, _, _, ok := vexpectPlant(c, in, p)
+		if !ok {
+			continue
+		}
+		exact := false
+		for _, m := range res.Matches {
+			if m.MatchType == p.doc.cat && m.Name == p.doc.name && m.StartTokenIndex == st && m.EndTokenIndex == et && m.Confidence == 1.0 {
+				exact = true
+			}
+		}
+		if exact {
+			continue
+		}
+		explained := false
+		for _, m := range res.Matches {
+			if m.MatchType != "Copyright" && m.Confidence < 1.0 &&
+				m.StartTokenIndex <= st && m.EndTokenIndex >= et && (m.EndTokenIndex-m.StartTokenIndex) > (et-st) &&
+				float64(m.EndTokenIndex-m.StartTokenIndex+1)*m.Confidence >= float64(len(d.Tokens)) {
+				explained = true
+			}
+		}
+		if !explained {
+			return ""
+		}
+	}
+	return "C01/approximate-superset-dominates-exact"
+}
+
+// vc01Verdict emits the C01 verdict; a failure that classifies as a known finding carries the `match`
+// record of the same call (corpus record per threshold, emitted on first use) as needs_corr.
+func vc01Verdict(o *vout, c *Classifier, keys map[float64][]string, id, key, w string, nontriv bool, in vinput, res Results, detail map[string]interface{}) {
+	sig := ""
+	var needs []string
+	if w != "" {
+		if sig = vclassifyC01(c, in, res); sig != "" {
+			cid := fmt.Sprintf("c01_%016x", math.Float64bits(c.threshold))
+			if keys[c.threshold] == nil {
+				keys[c.threshold] = vcorpusRecord(o, cid, c)
+			}
+			needs = []string{"kf_" + id}
+			vmatchCase(o, c, cid, keys[c.threshold], needs[0], in.data, true)
+		}
+	}
+	o.verdictSigCorr("C01", id, w == "", nontriv, key, sig, needs, detail)
+}
+
 func TestVerifC01(t *testing.T) {
 	o := newVout()
 	defer o.close()
@@ -147,6 +206,7 @@ func TestVerifC01(t *testing.T) {
 		ths = []float64{0.8, 0.9}
 	}
 	n, nchecked := 0, 0
+	c01Keys := map[float64][]string{}
 	for ti, th := range ths {
 		c := vdefault()
 		if th != 0.8 {
@@ -215,7 +275,7 @@ func TestVerifC01(t *testing.T) {
 			}
 			w, k := voracleC01(c, in, res)
 			nchecked += k
-			o.verdict("C01", in.id, w == "", k > 0, fmt.Sprintf("%v:%s", th, vkey(d)), map[string]interface{}{"what": w, "doc": vkey(d), "threshold": th, "input_hex": vclip(hx(in.data))})
+			vc01Verdict(o, c, c01Keys, in.id, fmt.Sprintf("%v:%s", th, vkey(d)), w, k > 0, in, res, map[string]interface{}{"what": w, "doc": vkey(d), "threshold": th, "input_hex": vclip(hx(in.data))})
 			n++
 		}
 		for i := 0; i < nMulti; i++ {
@@ -237,7 +297,7 @@ func TestVerifC01(t *testing.T) {
 			for _, d := range ds {
 				ks = append(ks, vkey(d))
 			}
-			o.verdict("C01", in.id, w == "", k > 0, fmt.Sprintf("%v:%v", th, ks), map[string]interface{}{"what": w, "docs": ks, "threshold": th, "input_hex": vclip(hx(in.data))})
+			vc01Verdict(o, c, c01Keys, in.id, fmt.Sprintf("%v:%v", th, ks), w, k > 0, in, res, map[string]interface{}{"what": w, "docs": ks, "threshold": th, "input_hex": vclip(hx(in.data))})
 			n++
 		}
 	}
